@@ -17,6 +17,7 @@ import sys
 
 BOT = ('B',)
 INF = float('inf')
+MAXF = 1.7976931348623157e308
 
 # ----------------------------------------------------------------------------------------------
 # terms
@@ -1517,14 +1518,17 @@ def int_binop(op, a, b, ty):
         if al >= 0:
             lo, hi = al << sl, ah << sh
             if hi > hi_t:
-                lo, hi = (0, hi_t) if lo_t == 0 else (lo_t, hi_t)
+                # bits are shifted out (no panic); the result is still a multiple of 2^sl
+                lo, hi = (0, hi_t) if lo_t == 0 else (lo_t, hi_t - (hi_t % (1 << sl)))
                 zeros = (1 << sl) - 1 if lo_t == 0 else 0
             else:
                 zeros = ((1 << sl) - 1)
                 if sl == sh:
                     zeros |= (a[3] << sl)
         else:
-            lo, hi = lo_t, hi_t
+            lo, hi = min(al << sl, al << sh), max(ah << sl, ah << sh)
+            if lo < lo_t or hi > hi_t:
+                lo, hi = lo_t, hi_t - (hi_t % (1 << sl))
     elif op in ('Shr', 'ShrUnchecked'):
         bits = ty['bits'] if 'bits' in ty else 64
         sl, sh = max(bl, 0), min(bh, bits - 1)
@@ -1822,6 +1826,12 @@ class InterpOps:
             if not self._bool_rf(st, t, truth):
                 return False
             return self.assume_cmp(st, op, t[1], t[2], negated=neg)
+        if op == 'isfin':
+            if not self._bool_rf(st, t, truth):
+                return False
+            if truth:
+                return self.refine_term(st, t[1], -MAXF, MAXF)
+            return True
         if op == 'inrange':
             # lo <= x <= hi (or < hi): true gives both comparisons, false only the flag
             if not self._bool_rf(st, t, truth):
@@ -2018,6 +2028,10 @@ class InterpOps:
             res = float_binop(op, a, b, bits)
             if res is None:
                 return ('T', tyid, None)
+            if op == 'Mul' and a[4] is not None and a[4] == b[4] and a[1] <= a[2]:
+                # x * x: a square is never negative (the two operands are the same value)
+                m = min(abs(a[1]), abs(a[2])) if (a[1] > 0 or a[2] < 0) else 0.0
+                res = ('F', max(res[1], m * m if m != INF else res[1]), res[2], res[3], None)
             t = mkterm(op, a[4] or self._fconst_term(a), b[4] or self._fconst_term(b)) or T('o', self.site(frame, bb, idx))
             return self.reg((res[0], res[1], res[2], res[3], t))
         # pointer / unknown comparisons
@@ -3292,7 +3306,7 @@ class Engine(Interp, InterpOps, CallMixin, ZoneMixin):
             return True
         if term[0] == 'discr':
             return self.narrow_discr(st, term, {val}, True)
-        if term[0] in CMPS or term[0] in ('And', 'Or', 'Not', 'inrange'):
+        if term[0] in CMPS or term[0] in ('And', 'Or', 'Not', 'inrange', 'isfin'):
             return self.assume(st, term, val != 0)
         for f in st.facts:
             if f[0] == 'Ne' and f[1] is term and f[2] == ('c', val):
